@@ -438,7 +438,7 @@ theorem bsplineG_eq_Bind (t : Int → α) (x : α) (n : Nat) (i : Int) :
 theorem basisT_val (t : Int → α) (nknots order : Nat) (xs : List α) (j g : Nat) (hg : g < xs.length) :
     (bsplineBasis t nknots order xs).transpose.val j g
       = Bind (indR t (xs.getD g 0)) t (xs.getD g 0) order j := by
-  simp only [Mat.transpose, bsplineBasis, tabulate2_eq]
+  simp only [Mat.transpose, bsplineBasis, tabGet_tabOf]
   rw [List.getElem?_eq_getElem hg]
   simp only [bsplineG_eq_Bind]
   simp [List.getD_eq_getElem?_getD, hg]
